@@ -522,10 +522,9 @@ theorem open_repaired (c : Cfg) (hc : GoodR c.r) (ht : c.truncatesTornTail = tru
         exact ⟨hdisk, rfl, fileCells_hdr nl _⟩
       · simp [recover, mainIndex, hg, hload]
     · -- not even header + name: the file is recreated; it loads as empty
-      have hload : loadFile c.r g = .ok [] := by
-        obtain ⟨m, _, hl, _⟩ := loadFile_prefix_good c.r hc nl blocks hwf g hpre
+      have hload : loadEntries c.r g = [] := by
         by_cases h64 : g.length < 64
-        · simp [loadFile, headerOf_short g h64, hc.2.2, h64]
+        · cases hs : c.r.shortFileIsEmpty <;> simp [loadEntries, loadFile, headerOf_short g h64, hs, h64]
         · have hfh : fhCells nl <+: g := by
             apply List.prefix_of_prefix_length_le _ hpre (by simp; omega)
             simp only [fileCells, List.append_assoc]; exact List.prefix_append _ _
@@ -537,7 +536,7 @@ theorem open_repaired (c : Cfg) (hc : GoodR c.r) (ht : c.truncatesTornTail = tru
           have hl2 : g2.length < nl := by
             simp only [List.length_append, fhCells_length] at hlen
             omega
-          simp only [loadFile, headerOf_file, hd, hl2, if_true, hc.2.2]
+          cases hs : c.r.shortFileIsEmpty <;> simp [loadEntries, loadFile, headerOf_file, hd, hl2, hs]
       refine ⟨[], _, createOps .main nl, ?_, fresh d htemp, rfl, rfl, by simp, ?_⟩
       · by_cases h64 : g.length < 64
         · simp [openWriter, Disk.get, hg, headerOf_short g h64, ht]
@@ -553,6 +552,21 @@ theorem open_repaired (c : Cfg) (hc : GoodR c.r) (ht : c.truncatesTornTail = tru
             simp only [List.length_append, fhCells_length] at hlen
             omega
           simp [openWriter, Disk.get, hg, headerOf_file, ht, validLen, hd, hl2]
-      · simp [recover, mainIndex, hg, hload, entsOf, Index.replay]
+      · have : recover c d = Index.replay [] (loadEntries c.r g) := by
+          simp only [recover, mainIndex, hg, loadEntries]
+          cases loadFile c.r g <;> simp [Index.replay]
+        rw [this, hload]; simp [entsOf]
+
+end Hv.Storage
+
+namespace Hv.Storage
+
+theorem applyAll_sessionOps (nl : Nat) (evs : List Ev) :
+    ({} : Disk).applyAll (sessionOps nl evs) = { main := some (fileCells nl (evBlocks evs)), temp := none } := by
+  simp only [sessionOps, Disk.applyAll_append, createOps_apply_main]
+  have := applyAll_evOps nl evs (fhCells nl ++ nmCells nl) { main := some (fhCells nl ++ nmCells nl), temp := none } rfl
+    (HdrOk_file nl _)
+  simp only [List.length_append, fhCells_length, nmCells_length] at this
+  rw [this]; simp [fileCells]
 
 end Hv.Storage
